@@ -362,6 +362,34 @@ fn positive_case(case: &Case, acc: &mut Acc, row: &KeyRow, comp: bool, msg: &[u8
             }
         }
     }
+    // verification call histories on ONE signature object: what was checked before must not change the answer.
+    // (a) an altered message first (must be rejected), then the signed message (must be accepted);
+    // (b) the signed message first, then the altered one (must be rejected) - on the signed object and on one parsed
+    // from the compact bytes
+    if let Some(addr) = lib_address(v.acc, row, comp, PREFIXES[0]) {
+        let mut altered = msg.to_vec();
+        altered.push(0x2e);
+        let fresh = guard(|| Signature::from_compact_bytes(&cb).ok()).ok().flatten();
+        let objs: Vec<(&str, Option<Signature>)> = vec![("signed object", Some(sig.clone())), ("compact-parsed object", fresh)];
+        for (label, o) in objs {
+            let Some(o) = o else { continue };
+            v.acc.traces += 2;
+            let first = verify4(v.acc, &altered, &o, &addr);
+            let second = verify4(v.acc, msg, &o, &addr);
+            let a = v.settle(&first, &format!("{}: altered message, first call", label));
+            let b = v.settle(&second, &format!("{}: signed message after the altered one", label));
+            if a == Some(true) {
+                v.bad("verify/history/kind=missing-error", format!("{}: the message with one byte appended is accepted", label));
+            }
+            if b == Some(false) {
+                v.bad("verify/history/altered-then-signed/kind=spurious-error", format!("{}: own signature rejected after the same object was checked against an altered message: {:?}", label, second[0]));
+            }
+            let third = verify4(v.acc, &altered, &o, &addr);
+            if v.settle(&third, &format!("{}: altered message after the signed one", label)) == Some(true) {
+                v.bad("verify/history/signed-then-altered/kind=missing-error", format!("{}: the altered message is accepted after the same object verified the signed one", label));
+            }
+        }
+    }
 }
 
 // ------------------------------------------------------------------ negative legs
